@@ -83,7 +83,10 @@ class SPSATerminationChecker:
         if len(self._function_value_history) < 2:
             return False
 
-        change = abs(function_value - self._function_value_history[-2]) / abs(self._function_value_history[-2])
+        # A change can never be small in relation to a reference value of zero.
+        change = float("inf")
+        if self._function_value_history[-2] != 0:
+            change = abs(function_value - self._function_value_history[-2]) / abs(self._function_value_history[-2])
         self._change_history.append(change)
 
         if len(self._change_history) < self._allowed_consecutive_violations + 1:
